@@ -3,6 +3,7 @@ import TWV.Model.Search
 import TWV.Model.Arrays
 import TWV.Model.Match
 import TWV.Model.Rfa
+import TWV.Model.RfaImp
 import TWV.Model.Funfit
 
 /-! # Operation dispatch of the model driver (one function per protocol operation) -/
@@ -115,6 +116,25 @@ def opRfa : List String → String
     | _, _, _, _, _, _, _, _, _ => bad
   | _ => bad
 
+/-- the imperative model of the same call: the loops of the code run in program order -/
+def opRfaImp : List String → String
+  | [strategy, pw, n, x, y, aL, aR, bL, bR] =>
+    match Rfa.Strategy.ofString? strategy, parsePw? pw, n.toNat?, rats? x, rats? y,
+          nats? aL, nats? aR, nats? bL, nats? bR with
+    | some s, some pw, some n, some x, some y, some aL, some aR, some bL, some bR =>
+      let m := x.length
+      let w : Rfa.Windows := { aL := listFn aL, aR := listFn aR, bL := listFn bL, bR := listFn bR }
+      let xf := arrFn x.toArray
+      let yf := arrFn y.toArray
+      if n < 2 then "ERR " ++ toString Err.valueError
+      else if m < 2 ∨ y.length ≠ m then "unmodelled"
+      else if s ≠ .pc ∧ !RfaImp.windowsFit w m n then "unmodelled"
+      else
+        let L := Rfa.outLen m n
+        s!"ok {fmtRats (tab L (Rfa.outX xf m n)).toList} {fmtRats (RfaImp.outYImpA s pw xf yf m n w)}"
+    | _, _, _, _, _, _, _, _, _ => bad
+  | _ => bad
+
 def opFunfit : List String → String
   | [name, pw, x, x0, y0, x1, y1] =>
     match parsePw? pw, parseRat? x, parseRat? x0, parseRat? y0, parseRat? x1, parseRat? y1 with
@@ -140,6 +160,7 @@ def dispatch1 (op : String) (args : List String) : Option String :=
     | "rfaparams" => some (opRfaParams args)
     | "rfawin" => some (opRfaWin args)
     | "rfa" => some (opRfa args)
+    | "rfaimp" => some (opRfaImp args)
     | "funfit" => some (opFunfit args)
     | _ => none
 
